@@ -20,7 +20,7 @@ func TestMain(m *testing.M) {
 		Property: "C11",
 		Rule: "each case is one generated database: schema (1-3 tables, every column type, composite keys, 0-4 plain/unique/composite secondary indexes " +
 			"created before or after the data) + a twin of every table without secondary indexes, a history of multi-statement transactions (insert, upsert, " +
-			"on-conflict, update of indexed columns, delete, failing statements) applied to table and twin, store reopen, then 12-40 generated SELECTs " +
+			"on-conflict, update of indexed columns, delete, failing statements) applied to table and twin, store reopen, then 12-40 (thorough: 12-60) generated SELECTs " +
 			"(comparisons, ranges, IN, LIKE, IS NULL, boolean combinations, ORDER BY asc/desc, LIMIT/OFFSET, DISTINCT, GROUP BY/aggregates/HAVING, inner/left " +
 			"joins, IN/EXISTS/scalar subqueries, UNION, HISTORY OF and period queries), each evaluated through the twin, the planner's choice, the forced primary " +
 			"key and every forced secondary index, inside the open transaction, after commit (two engines: default and tiny sort/distinct buffers) and after " +
@@ -54,6 +54,8 @@ func TestMain(m *testing.M) {
 			{ID: kfCountSubq, Present: probeCountStarSubquery},
 			{ID: kfBigMixed, Present: probeBigMixedCompare},
 			{ID: kfHashResidual, Present: probeHashJoinResidual},
+			{ID: kfMixedJoin, Present: probeMixedHashJoin},
+			{ID: kfNullRange, Present: probeTypedNullRange},
 		},
 	})
 }
@@ -79,7 +81,7 @@ func probeDB(o sqlgen.DBOpts, stmts ...string) (*sqlgen.DB, func(), error) {
 	return db, cleanup, nil
 }
 
-// probeSpill: ORDER BY spilling to a temp file returns NULL for ''.
+// probeSpill: ORDER BY spilling to a temp file returns NULL for ”.
 func probeSpill() (bool, string) {
 	db, done, err := probeDB(sqlgen.DBOpts{SortBufferSize: 2},
 		"CREATE TABLE t (id INTEGER, s VARCHAR[8], PRIMARY KEY id)",
@@ -405,6 +407,49 @@ func probeHashJoinResidual() (bool, string) {
 	return false, ""
 }
 
+// probeMixedHashJoin: the hash join key carries the Go type of the value, so INTEGER = FLOAT never
+// matches there while the nested-loop path compares numerically.
+func probeMixedHashJoin() (bool, string) {
+	db, done, err := probeDB(sqlgen.DBOpts{},
+		"CREATE TABLE t (id INTEGER, i INTEGER NOT NULL, PRIMARY KEY id)",
+		"CREATE TABLE u (id INTEGER, f FLOAT NOT NULL, PRIMARY KEY id)",
+		"INSERT INTO t (id, i) VALUES (1, 10)",
+		"INSERT INTO u (id, f) VALUES (1, 10.0)")
+	if err != nil {
+		return false, ""
+	}
+	defer done()
+	a, err1 := db.Query("SELECT t.id, u.id FROM t INNER JOIN u ON t.i = u.f", nil)
+	b, err2 := db.Query("SELECT t.id, u.id FROM t INNER JOIN (SELECT * FROM u) AS u ON t.i = u.f", nil)
+	if err1 != nil || err2 != nil {
+		return false, ""
+	}
+	if d := sqlgen.DiffMultiset(a, b); d != "" {
+		return true, fmt.Sprintf("t.i = 10, u.f = 10.0: t JOIN u ON t.i = u.f returns %v; with u as a derived table (nested loop) %v", a.Keys(), b.Keys())
+	}
+	return false, ""
+}
+
+// probeTypedNullRange: a NULL join key of type INTEGER and a FLOAT constant on the same inner
+// column cannot be intersected when the scan range is derived: the nested-loop join fails.
+func probeTypedNullRange() (bool, string) {
+	db, done, err := probeDB(sqlgen.DBOpts{},
+		"CREATE TABLE t (id INTEGER, a INTEGER, PRIMARY KEY id)",
+		"CREATE TABLE u (id INTEGER, PRIMARY KEY id)",
+		"INSERT INTO t (id, a) VALUES (1, NULL)",
+		"INSERT INTO u (id) VALUES (1)")
+	if err != nil {
+		return false, ""
+	}
+	defer done()
+	_, err1 := db.Query("SELECT t.id FROM t INNER JOIN (SELECT * FROM u) AS u ON u.id = t.a AND t.id > 0 WHERE u.id <= 5.5", nil)
+	_, err2 := db.Query("SELECT t.id FROM t INNER JOIN u ON u.id = t.a AND t.id > 0 WHERE u.id <= 5.5", nil)
+	if err1 == nil && err2 != nil {
+		return true, "t.a NULL: t JOIN u ON u.id = t.a AND t.id > 0 WHERE u.id <= 5.5 fails (" + err2.Error() + "); with u as a derived table it returns no rows"
+	}
+	return false, ""
+}
+
 // probeInTxDup: two rows written by the open transaction with the same value in an indexed
 // column share one transient index entry; the index scan inside the transaction sees one of them.
 func probeInTxDup() (bool, string) {
@@ -453,12 +498,82 @@ func otherOpts(o sqlgen.DBOpts) sqlgen.DBOpts {
 	return sqlgen.DBOpts{SortBufferSize: 2, DistinctSpillThreshold: 1, SmallIndexNodes: o.SmallIndexNodes}
 }
 
+// queryOpts switches on the generator exclusions of the known findings whose probe fired.
+func queryOpts() sqlgen.QueryOpts {
+	qo := sqlgen.QueryOpts{}
+	if vk.Excluded(kfNullsOrd) {
+		qo.NoNullsOrder = true
+	}
+	if vk.Excluded(kfNotIn) {
+		qo.NoNotInReduce = true
+	}
+	if vk.Excluded(kfOrdPos) {
+		qo.NoOrderByPosition = true
+	}
+	if vk.Excluded(kfJoinOrder) {
+		qo.NoJoinedOrderClash = true
+	}
+	if vk.Excluded(kfTopNDistinct) {
+		qo.NoDistinctTopN = true
+	}
+	if vk.Excluded(kfMaxLen) {
+		qo.NoLenMismatch = true
+	}
+	if vk.Excluded(kfCountSubq) {
+		qo.NoCountStarSubquery = true
+	}
+	if vk.Excluded(kfBigMixed) {
+		qo.NoBigMixedCompare = true
+	}
+	if vk.Excluded(kfHashResidual) {
+		qo.NoNonEquiJoin = true
+	}
+	if vk.Excluded(kfMixedJoin) {
+		qo.NoMixedJoin = true
+	}
+	if vk.Excluded(kfMixedJoin) || vk.Excluded(kfNullRange) {
+		qo.NoMixedInJoin = true
+	}
+	qo.OnExclude = func(what string) {
+		switch {
+		case strings.HasPrefix(what, "ORDER BY <position>"):
+			vk.CountExcluded(kfOrdPos)
+		case strings.HasPrefix(what, "ORDER BY joined"):
+			vk.CountExcluded(kfJoinOrder)
+		case strings.HasPrefix(what, "DISTINCT"):
+			vk.CountExcluded(kfTopNDistinct)
+		case strings.HasPrefix(what, "length mismatch"):
+			vk.CountExcluded(kfMaxLen)
+		case strings.HasPrefix(what, "COUNT(*) with a subquery"):
+			vk.CountExcluded(kfCountSubq)
+		case strings.HasPrefix(what, "INTEGER/FLOAT comparison beyond"):
+			vk.CountExcluded(kfBigMixed)
+		case strings.HasPrefix(what, "non-equi join"):
+			vk.CountExcluded(kfHashResidual)
+		case strings.HasPrefix(what, "INTEGER = FLOAT"):
+			vk.CountExcluded(kfMixedJoin)
+		case strings.HasPrefix(what, "INTEGER/FLOAT constant comparison in a join"):
+			if vk.Excluded(kfMixedJoin) {
+				vk.CountExcluded(kfMixedJoin)
+			}
+			if vk.Excluded(kfNullRange) {
+				vk.CountExcluded(kfNullRange)
+			}
+		case strings.HasPrefix(what, "ORDER BY"):
+			vk.CountExcluded(kfNullsOrd)
+		default:
+			vk.CountExcluded(kfNotIn)
+		}
+	}
+	return qo
+}
+
 type phaseResult map[int]map[string]outcome // query index -> variant name -> outcome
 
 // TestPlanIndependence is the main property: see Config.Rule.
 func TestPlanIndependence(t *testing.T) {
 	setupTmp()
-	vk.Check(t, 330, 36000, func(rt *rapid.T, c *vk.Case) {
+	vk.Check(t, 400, 10000, func(rt *rapid.T, c *vk.Case) {
 		e := &env{rt: rt, c: c, created: map[string][]sqlgen.Index{}, pending: map[string][]sqlgen.Index{},
 			used: map[string]sqlgen.KeySet{}, empties: map[string]bool{}, dirty: map[string]bool{}, touched: map[string]bool{}, collide: map[string]bool{}}
 		so := sqlgen.SchemaOpts{}
@@ -467,6 +582,7 @@ func TestPlanIndependence(t *testing.T) {
 			so.OnExclude = func(string) { vk.CountExcluded(kfNegZero) }
 		}
 		e.schema = sqlgen.GenSchema(rt, so)
+		e.qo = queryOpts()
 		wopts := drawOpts(rt, "writer")
 		e.dir = vk.Dir()
 		defer os.RemoveAll(e.dir)
@@ -509,7 +625,11 @@ func TestPlanIndependence(t *testing.T) {
 		}
 
 		// committed history
-		nTx := rapid.IntRange(1, 5).Draw(rt, "nTx")
+		maxTx, maxQ := 5, 40
+		if vk.Thorough() {
+			maxTx, maxQ = 8, 60
+		}
+		nTx := rapid.IntRange(1, maxTx).Draw(rt, "nTx")
 		for i := 0; i < nTx; i++ {
 			e.runTx(i == 0, false, false)
 			if i == 0 || rapid.IntRange(0, 2).Draw(rt, "createIndexNow") == 0 {
@@ -527,58 +647,10 @@ func TestPlanIndependence(t *testing.T) {
 		lastTx := e.db.St.LastCommittedTxID()
 
 		// the queries
-		qo := sqlgen.QueryOpts{LastTx: lastTx}
-		if vk.Excluded(kfNullsOrd) {
-			qo.NoNullsOrder = true
-		}
-		if vk.Excluded(kfNotIn) {
-			qo.NoNotInReduce = true
-		}
-		if vk.Excluded(kfOrdPos) {
-			qo.NoOrderByPosition = true
-		}
-		if vk.Excluded(kfJoinOrder) {
-			qo.NoJoinedOrderClash = true
-		}
-		if vk.Excluded(kfTopNDistinct) {
-			qo.NoDistinctTopN = true
-		}
-		if vk.Excluded(kfMaxLen) {
-			qo.NoLenMismatch = true
-		}
-		if vk.Excluded(kfCountSubq) {
-			qo.NoCountStarSubquery = true
-		}
-		if vk.Excluded(kfBigMixed) {
-			qo.NoBigMixedCompare = true
-		}
-		if vk.Excluded(kfHashResidual) {
-			qo.NoNonEquiJoin = true
-		}
-		qo.OnExclude = func(what string) {
-			switch {
-			case strings.HasPrefix(what, "ORDER BY <position>"):
-				vk.CountExcluded(kfOrdPos)
-			case strings.HasPrefix(what, "ORDER BY joined"):
-				vk.CountExcluded(kfJoinOrder)
-			case strings.HasPrefix(what, "DISTINCT"):
-				vk.CountExcluded(kfTopNDistinct)
-			case strings.HasPrefix(what, "length mismatch"):
-				vk.CountExcluded(kfMaxLen)
-			case strings.HasPrefix(what, "COUNT(*) with a subquery"):
-				vk.CountExcluded(kfCountSubq)
-			case strings.HasPrefix(what, "INTEGER/FLOAT"):
-				vk.CountExcluded(kfBigMixed)
-			case strings.HasPrefix(what, "non-equi join"):
-				vk.CountExcluded(kfHashResidual)
-			case strings.HasPrefix(what, "ORDER BY"):
-				vk.CountExcluded(kfNullsOrd)
-			default:
-				vk.CountExcluded(kfNotIn)
-			}
-		}
+		qo := e.qo
+		qo.LastTx = lastTx
 		g := sqlgen.NewGen(rt, qo)
-		nq := rapid.IntRange(12, 40).Draw(rt, "nQueries")
+		nq := rapid.IntRange(12, maxQ).Draw(rt, "nQueries")
 		queries := make([]*sqlgen.Query, nq)
 		vars := make([][]variant, nq)
 		for i := range queries {
@@ -630,8 +702,9 @@ func TestPlanIndependence(t *testing.T) {
 			if !vk.Excluded(kfSpill) {
 				return false
 			}
-			for _, r := range q.AllRefs() {
-				if e.empties[r.T.Name] {
+			// the spilled rows hold the columns the query reads
+			for col := range q.ColumnsUsed() {
+				if e.empties[col] {
 					vk.CountExcluded(kfSpill)
 					return true
 				}
